@@ -142,7 +142,7 @@ def wake(ctx):
     if not mods:
         ctx.broken("no modification of Latch::counter_ (anchor vanished)")
     for f, top, op in mods:
-        ok, detail = notify_follows(f, f.pos_of(op["st"]), "cv", ["counter_"], CLS, la=locks_of(ctx.eng, ctx.fb, f), mutex="mtx")
+        ok, detail = notify_follows(f, f.pos_of(op["st"]), "cv", ["counter_"], CLS, la=locks_of(ctx.eng, ctx.fb, f), mutex="mtx", fb=ctx.fb)
         ctx.ob(rid, ok, f.loc(op["st"]), "the arrival is followed by cv.notify_all() when it may open the latch",
                "" if ok else detail, fn=top.label, inst=f.qname)
         # a decrement by more than one can step over zero: the decision to wake must then be an inequality
